@@ -1,1 +1,17 @@
 import ThriftVerif.Props.C06
+#print axioms Props.C06.const_value
+#print axioms Props.C06.const_value_named
+#print axioms Props.C06.const_value_fails_escaped_quote
+#print axioms Props.C06.const_value_fails_foreign_struct_literal
+#print axioms Props.C06.const_value_fails_optional_enum_member
+#print axioms Props.C06.string_literal_emission
+#print axioms Props.C06.string_literal_value
+#print axioms Props.C06.string_literal_plain
+#print axioms Props.C06.string_literal_defects
+#print axioms Props.C06.newX_defaults
+#print axioms Props.C06.initDefault_zero_eq_newX
+#print axioms Props.C06.getter_default
+#print axioms Props.C06.getter_set
+#print axioms Props.C06.isset_optional_default
+#print axioms Props.C06.isset_pointer
+#print axioms Props.C06.predicate_tables_sound
